@@ -17,7 +17,7 @@ use super::AtomicOption;
 use crate::coroutine_impl::{is_coroutine, run_coroutine, CoroutineImpl, EventSource};
 use crate::likely::{likely, unlikely};
 use crate::scheduler::get_scheduler;
-use crate::yield_now::{yield_now, yield_with};
+use crate::yield_now::yield_with;
 
 use may_queue::spsc::Queue;
 
@@ -31,7 +31,9 @@ impl<'a, T> Park<'a, T> {
     fn new(queue: &'a InnerQueue<T>) -> Park<'a, T> {
         Park {
             queue,
-            wait_kernel: AtomicBool::new(true),
+            // only set while the kernel half (subscribe) is at work: it is not
+            // entered at all when the coroutine is already canceled
+            wait_kernel: AtomicBool::new(false),
         }
     }
 
@@ -44,7 +46,7 @@ impl<T> Drop for Park<'_, T> {
     fn drop(&mut self) {
         // wait the kernel finish
         while self.wait_kernel.load(Ordering::Relaxed) {
-            yield_now();
+            crate::park::wait_kernel_yield();
         }
     }
 }
@@ -61,6 +63,7 @@ impl<T> EventSource for Park<'_, T> {
     // register the coroutine to the park
     fn subscribe(&mut self, co: CoroutineImpl) {
         // the queue could dropped if unpark by other thread
+        self.wait_kernel.store(true, Ordering::Relaxed);
         let _g = self.delay_drop();
         // register the coroutine
         let wait_co = &self.queue.wait_co;
